@@ -38,8 +38,7 @@ abbrev STuple (α : Type) := α × α × α × α   -- mu, eta, chi, phi
 def sampleConMu (mu : α) (N_lab N_phi : M3 α) : Py (List (STuple α)) :=
   let V := M3.mul (M3.mul (M3.inv (Gen.rot_MU mu)) N_lab) (M3.transpose N_phi)
   catchAssert do
-    let b ← bound V.a22
-    let acos_chi ← pyAcos b
+    let acos_chi ← boundAcos V.a22
     if isSmall (sin acos_chi) then
       pure [(mu, zero, acos_chi, atan2 (-V.a10) V.a11)]
     else
@@ -52,10 +51,7 @@ def sampleConMu (mu : α) (N_lab N_phi : M3 α) : Py (List (STuple α)) :=
 /-- `__calc_sample_con_phi` -/
 def sampleConPhi (phi : α) (N_lab N_phi : M3 α) : Py (List (STuple α)) :=
   let V := M3.mul (M3.mul N_lab (M3.inv N_phi)) (M3.transpose (Gen.rot_PHI phi))
-  match (do let b ← bound V.a01; pyAsin b : Py α) with
-  | .error .assertion => .ok []
-  | .error e => .error e
-  | .ok asin_eta =>
+  tryAssert (boundAsin (V.a01)) fun asin_eta =>
     if isSmall (cos asin_eta) then .error .dce
     else .ok <| [asin_eta, pi - asin_eta].map fun eta =>
       let sgn := sign (cos eta)
@@ -81,10 +77,7 @@ def sampleConChi (chi : α) (N_lab N_phi : M3 α) : Py (List (STuple α)) :=
   if isSmall sin_chi then .error .dce
   else
     let Z := M3.mul N_lab (M3.transpose N_phi)
-    match (do let b ← bound (Z.a02 / sin_chi); pyAcos b : Py α) with
-    | .error .assertion => .ok []
-    | .error e => .error e
-    | .ok acos_eta => forM' [acos_eta, -acos_eta] fun eta => sampleFromChiEta chi eta Z
+    tryAssert (boundAcos (Z.a02 / sin_chi)) fun acos_eta => forM' [acos_eta, -acos_eta] fun eta => sampleFromChiEta chi eta Z
 
 /-- `__calc_sample_con_eta` -/
 def sampleConEta (eta : α) (N_lab N_phi : M3 α) : Py (List (STuple α)) :=
@@ -92,10 +85,7 @@ def sampleConEta (eta : α) (N_lab N_phi : M3 α) : Py (List (STuple α)) :=
   if isSmall cos_eta then .error .dce
   else
     let Z := M3.mul N_lab (M3.transpose N_phi)
-    match (do let b ← bound (Z.a02 / cos_eta); pyAsin b : Py α) with
-    | .error .assertion => .ok []
-    | .error e => .error e
-    | .ok asin_chi => forM' [asin_chi, pi - asin_chi] fun chi => sampleFromChiEta chi eta Z
+    tryAssert (boundAsin (Z.a02 / cos_eta)) fun asin_chi => forM' [asin_chi, pi - asin_chi] fun chi => sampleFromChiEta chi eta Z
 
 /-- the single sample constraint of a detector + reference + sample mode -/
 inductive Samp1 (α : Type) | mu (v : α) | phi (v : α) | eta (v : α) | chi (v : α)
@@ -120,13 +110,7 @@ def sampleConMuEta (mu eta qaz theta : α) (N_phi : M3 α) : Py (List (STuple α
   let V := M3.mul (M3.mul (M3.mul (M3.transpose (Gen.rot_ETA eta)) (M3.transpose (Gen.rot_MU mu))) F) THETA
   if isSmall N_phi.a00 && isSmall N_phi.a10 then .error .dce
   else
-    match (do
-        let bot ← bound (-V.a10 / hypot N_phi.a00 N_phi.a10)
-        let a ← pyAsin bot
-        pure a : Py α) with
-    | .error .assertion => .ok []
-    | .error e => .error e
-    | .ok asin_bot =>
+    tryAssert (boundAsin (-V.a10 / hypot N_phi.a00 N_phi.a10)) fun asin_bot =>
       let eps := atan2 N_phi.a10 N_phi.a00
       .ok <| [asin_bot + eps, pi - asin_bot + eps].map fun phi =>
         let a := N_phi.a00 * cos phi + N_phi.a10 * sin phi
@@ -162,34 +146,21 @@ def sampleConMuBisect (mu qaz theta : α) (N_phi : M3 α) : Py (List (STuple α)
 def sampleConEtaBisect (eta qaz theta : α) (N_phi : M3 α) : Py (List (STuple α)) :=
   let sin_qaz := sin qaz
   let sin_eta := sin eta
-  let thomega_vals : Py (Option (List α)) :=
-    if isSmall sin_qaz then (if isSmall sin_eta then .ok (some [theta]) else .ok none)
-    else
-      match (do let b ← bound (sin_eta / sin_qaz); pyAsin b : Py α) with
-      | .error .assertion => .ok none
-      | .error e => .error e
-      | .ok asin_thomega =>
-        if isSmall (abs asin_thomega - pi / two) then .ok (some [sign asin_thomega * pi / two])
-        else .ok (some [asin_thomega, pi - asin_thomega])
-  match thomega_vals with
-  | .error e => .error e
-  | .ok none => .ok []
-  | .ok (some ths) =>
+  let rest (ths : List α) : Py (List (STuple α)) :=
     let mu_vals := ths.flatMap fun thomega =>
       let atan_mu := atan (tan thomega * cos qaz)
       [atan_mu, pi + atan_mu]
     forM' mu_vals fun m => sampleConMuEta m eta qaz theta N_phi
+  if isSmall sin_qaz then (if isSmall sin_eta then rest [theta] else .ok [])
+  else
+    tryAssert (boundAsin (sin_eta / sin_qaz)) fun asin_thomega =>
+      if isSmall (abs asin_thomega - pi / two) then rest [sign asin_thomega * pi / two]
+      else rest [asin_thomega, pi - asin_thomega]
 
 /-- `__calc_sample_con_chi_phi` -/
 def sampleConChiPhi (chi phi qaz theta : α) (N_phi : M3 α) : Py (List (STuple α)) :=
   let V := M3.mul (M3.mul (Gen.rot_CHI chi) (Gen.rot_PHI phi)) N_phi
-  match (do
-      let s ← pySqrt (cos qaz * cos qaz * (cos theta * cos theta) + sin theta * sin theta)
-      let bot ← bound (V.a20 / s)
-      pyAsin bot : Py α) with
-  | .error .assertion => .ok []
-  | .error e => .error e
-  | .ok asin_bot =>
+  tryAssert (pySqrt (cos qaz * cos qaz * (cos theta * cos theta) + sin theta * sin theta) >>= fun s => boundAsin (V.a20 / s)) fun asin_bot =>
     let eps := atan2 (-(cos qaz) * cos theta) (sin theta)
     forM' [asin_bot + eps, pi - asin_bot + eps] fun mu =>
       let a := cos theta * sin qaz
@@ -205,12 +176,7 @@ def sampleConMuPhi (mu phi qaz theta : α) (N_phi : M3 α) : Py (List (STuple α
   let THETA := Gen.z_rotation (-theta)
   let V := M3.mul (M3.mul (M3.transpose (Gen.rot_MU mu)) F) THETA
   let E := M3.mul (Gen.rot_PHI phi) N_phi
-  match (do
-      let bot ← bound (-V.a20 / hypot E.a00 E.a20)
-      pyAsin bot : Py α) with
-  | .error .assertion => .ok []
-  | .error e => .error e
-  | .ok asin_bot =>
+  tryAssert (boundAsin (-V.a20 / hypot E.a00 E.a20)) fun asin_bot =>
     let eps := atan2 E.a20 E.a00
     .ok <| [asin_bot + eps, pi - asin_bot + eps].map fun chi =>
       let a := E.a00 * cos chi + E.a20 * sin chi
@@ -226,12 +192,7 @@ def sampleConMuChi (mu chi qaz theta : α) (N_phi : M3 α) : Py (List (STuple α
   else if isSmall A && isSmall B then .error .dce
   else
     let ks := atan2 A B
-    match (do
-        let b ← bound ((N_phi.a20 * cos chi - V20) / (sin chi * hypot A B))
-        pyAcos b : Py α) with
-    | .error .assertion => .ok []
-    | .error e => .error e
-    | .ok acos_phi =>
+    tryAssert (boundAcos ((N_phi.a20 * cos chi - V20) / (sin chi * hypot A B))) fun acos_phi =>
       let phi_list := if isSmall acos_phi then [ks] else [acos_phi + ks, -acos_phi + ks]
       forM' phi_list fun phi =>
         let A00 := -(cos qaz) * cos theta * sin mu + cos mu * sin theta
@@ -251,12 +212,7 @@ def sampleConEtaPhi (eta phi qaz theta : α) (N_phi : M3 α) : Py (List (STuple 
   else
     let V := (N_phi.a10 * cos phi - N_phi.a00 * sin phi) * tan eta
     let eps := atan2 X Y
-    match (do
-        let b ← bound ((sin qaz * cos theta / cos eta - V) / hypot X Y)
-        pyAcos b : Py α) with
-    | .error .assertion => .ok []
-    | .error e => .error e
-    | .ok acos_rhs =>
+    tryAssert (boundAcos ((sin qaz * cos theta / cos eta - V) / hypot X Y)) fun acos_rhs =>
       let acos_list := if isSmall acos_rhs then [eps] else [eps + acos_rhs, eps - acos_rhs]
       .ok <| acos_list.map fun chi =>
         let A := (N_phi.a00 * cos phi + N_phi.a10 * sin phi) * sin chi - N_phi.a20 * cos chi
@@ -274,12 +230,7 @@ def sampleConEtaChi (eta chi qaz theta : α) (N_phi : M3 α) : Py (List (STuple 
   if isSmall A && isSmall B then .error .dce
   else
     let ks := atan2 A B
-    match (do
-        let b ← bound ((cos theta * sin qaz - N_phi.a20 * cos eta * sin chi) / hypot A B)
-        pyAcos b : Py α) with
-    | .error .assertion => .ok []
-    | .error e => .error e
-    | .ok acos_V00 =>
+    tryAssert (boundAcos ((cos theta * sin qaz - N_phi.a20 * cos eta * sin chi) / hypot A B)) fun acos_V00 =>
       let phi_list := if isSmall acos_V00 then [ks] else [acos_V00 + ks, -acos_V00 + ks]
       forM' phi_list fun phi =>
         let A10 := N_phi.a00 * cos phi * sin chi + N_phi.a10 * sin chi * sin phi - N_phi.a20 * cos chi
